@@ -27,6 +27,11 @@ FLIP = {"LT": "GT", "GT": "LT", "EQ": "EQ"}
 CORRECTIONS = ("v", "w", "vt", "wt", "phi_major", "phi_minor")
 
 
+def in_kernel(stack) -> bool:
+    """The event happened inside the model's update kernel (the `_compute` method) or something it called."""
+    return any(lbl.endswith("._compute") or "._compute.<locals>" in lbl for lbl in stack)
+
+
 class Probe:
     """Hooks collecting accumulator increments, rank comparisons, share divisions and dict stores of the kernel."""
 
@@ -51,7 +56,7 @@ class Probe:
             if not isinstance(v, Num):
                 return None
             tag = f"ACC:{I.cur_func().split('::')[-1]}:{ast.unparse(st.target)}"
-            self.incs.append(dict(tag=tag, op=type(st.op).__name__, rhs=rhs, node=st, func=I.cur_func(), pc=state.pc))
+            self.incs.append(dict(tag=tag, op=type(st.op).__name__, rhs=rhs, node=st, func=I.cur_func(), pc=state.pc, stack=I.cur_stack(), tokens=tuple(l.token for l in I.loops)))
             return replace(v, prov=v.prov | {tag})
 
         def compare(I, node, op, a, b):
@@ -59,11 +64,11 @@ class Probe:
                 return
             if (a.sym[0] in ("rd", "elem") and b.sym[0] == a.sym[0] and a.sym[1] == b.sym[1]) or (a.sym[0] == "opq" and b.sym[0] == "opq" and a.sym[1:3] == b.sym[1:3]):
                 # two instances of the same per-team quantity (the rank) at different team positions
-                self.cmps.append(dict(func=I.cur_func(), op=op, a=a.sym, b=b.sym, node=node))
+                self.cmps.append(dict(func=I.cur_func(), op=op, a=a.sym, b=b.sym, node=node, stack=I.cur_stack()))
 
         def arith(I, node, opname, a, b):
             if opname == "div" and a.sym is not None and b.sym is not None:
-                self.shares.append(dict(func=I.cur_func(), num=a.sym, den=b.sym, node=node))
+                self.shares.append(dict(func=I.cur_func(), num=a.sym, den=b.sym, node=node, stack=I.cur_stack()))
 
         def dict_index_key(I, node, p, key):
             pass
@@ -112,29 +117,32 @@ def discover(prog, roles):
     if oc.undecided or not oc.returned:
         return None, "; ".join(oc.undecided[:3]) or "rate does not return"
     I = oc.I
-    mu_writes = [ev for ev in I.events if ev.kind == "write" and ev.data["origin"] == "input:player" and ev.data["field"] == "mu"]
-    sg_writes = [ev for ev in I.events if ev.kind == "write" and ev.data["origin"] == "input:player" and ev.data["field"] == "sigma" and "_compute" in ev.func]
+    mu_writes = [ev for ev in I.events if ev.kind == "write" and ev.data["origin"] == "input:player" and ev.data["field"] == "mu" and in_kernel(ev.stack)]
+    sg_writes = [ev for ev in I.events if ev.kind == "write" and ev.data["origin"] == "input:player" and ev.data["field"] == "sigma" and in_kernel(ev.stack)]
     if not mu_writes:
-        return None, "no store to a rating's mu found"
+        return None, "no store to a rating's mu found in the update kernel"
     mu_tags = {t for ev in mu_writes for t in getattr(ev.data["val"], "prov", ()) if t.startswith("ACC:")}
     sg_tags = {t for ev in sg_writes for t in getattr(ev.data["val"], "prov", ()) if t.startswith("ACC:")}
-
-    def is_player_temp(tag):
-        return any(i["tag"] == tag and any(t in mu_tags | sg_tags and "_compute" in t for t in getattr(i["rhs"], "prov", ()) if t.startswith("ACC:") and t != tag) for i in p0.incs)
-
-    omega_tags = {t for t in mu_tags if not is_player_temp(t) and "_compute" in t}
-    delta_tags = {t for t in sg_tags - mu_tags if not is_player_temp(t) and "_compute" in t}
-    if not omega_tags:
-        return None, f"no team-level accumulator flows into the mu update (accumulators seen: {sorted(mu_tags)})"
     tgt = mu_writes[0].data["ptr"]
     head_i = tgt.idx[0]
     ti = _tokens(("in", "x", "y", (head_i,)))
     if len(ti) != 1:
         return None, f"cannot identify the loop position of the updated team from {tgt}"
     ti = next(iter(ti))
+    tj = tgt.idx[1][1] if tgt.idx[1][0] == "v" else None
+
+    # team-level accumulators: incremented once per (updated team, other team) — under the updated team's loop, outside the
+    # per-player loop — and flowing into the stores
+    def team_level(tag):
+        return any(i["tag"] == tag and in_kernel(i["stack"]) and ti in i["tokens"] and (tj is None or tj not in i["tokens"]) for i in p0.incs)
+
+    omega_tags = {t for t in mu_tags if team_level(t)}
+    delta_tags = {t for t in sg_tags - mu_tags if team_level(t)}
+    if not omega_tags:
+        return None, f"no team-level accumulator flows into the mu update (accumulators seen: {sorted(mu_tags)})"
     pairs = {}
     for c in p0.cmps:
-        if "_compute" not in c["func"]:
+        if not in_kernel(c["stack"]):
             continue
         a_has, b_has = ti in _tokens(c["a"]), ti in _tokens(c["b"])
         if a_has == b_has:
@@ -159,32 +167,15 @@ def _job(idx: int) -> List[Dict[str, Any]]:
         out.append(dict(rule=rule, verdict=verdict, module=m, function=fn, construct=construct, line=ln, message=message, detail=detail or {}))
 
     # ---------------------------------------------------------------- discovery run
-    p0 = Probe(prog)
     try:
-        oc = _run(prog, roles, p0)
+        info, why = discover(prog, roles)
     except Exception as e:
-        inst("R7.A", "UNDECIDED", "discovery", f"abstract evaluation failed: {type(e).__name__}: {e}")
+        info, why = None, f"abstract evaluation failed: {type(e).__name__}: {e}"
+    if info is None:
+        inst("R7.A", "UNDECIDED", "discovery", why)
         return out
-    if oc.undecided or not oc.returned:
-        inst("R7.A", "UNDECIDED", "discovery", "; ".join(oc.undecided[:3]) or "rate does not return")
-        return out
-    I = oc.I
-    mu_writes = [ev for ev in I.events if ev.kind == "write" and ev.data["origin"] == "input:player" and ev.data["field"] == "mu"]
-    sg_writes = [ev for ev in I.events if ev.kind == "write" and ev.data["origin"] == "input:player" and ev.data["field"] == "sigma" and ev.func.split("::")[-1].startswith(roles.model.name + "._compute")]
-    if not mu_writes:
-        inst("R7.A", "UNDECIDED", "discovery", "no store to a rating's mu found")
-        return out
-    mu_tags = {t for ev in mu_writes for t in getattr(ev.data["val"], "prov", ()) if t.startswith("ACC:")}
-    sg_tags = {t for ev in sg_writes for t in getattr(ev.data["val"], "prov", ()) if t.startswith("ACC:")}
-    # accumulators that are team-level (not the per-player temporaries): those whose increments are not themselves tagged by another mu-accumulator
-    def is_player_temp(tag):
-        return any(i["tag"] == tag and any(t in mu_tags | sg_tags and "_compute" in t for t in getattr(i["rhs"], "prov", ()) if t.startswith("ACC:") and t != tag) for i in p0.incs)
-
-    omega_tags = {t for t in mu_tags if not is_player_temp(t) and "_compute" in t}
-    delta_tags = {t for t in sg_tags - mu_tags if not is_player_temp(t) and "_compute" in t}
-    if not omega_tags:
-        inst("R7.A", "UNDECIDED", "discovery", f"no team-level accumulator flows into the mu update (accumulators seen: {sorted(mu_tags)})")
-        return out
+    p0, oc, I = info["probe"], info["oc"], info["oc"].I
+    mu_writes, omega_tags, delta_tags = info["mu_writes"], info["omega_tags"], info["delta_tags"]
     # ---- R7.5 the callback never reaches omega / mu
     bad = [ev for ev in mu_writes if any(t.startswith("CALLBACK") for t in getattr(ev.data["val"], "prov", ()))]
     if bad:
@@ -196,7 +187,7 @@ def _job(idx: int) -> List[Dict[str, Any]]:
     # ---- R7.6 mu is changed by the exchange only: no store to a passed rating's mu outside the kernel (e.g. in the cap)
     try:
         oc2 = run_op(prog, roles, "rate", ranks="list-of-int", tau="any", limit_sigma="truthy")
-        stray = [ev for ev in oc2.I.events if ev.kind == "write" and ev.data["origin"] == "input:player" and ev.data["field"] == "mu" and "_compute" not in ev.func]
+        stray = [ev for ev in oc2.I.events if ev.kind == "write" and ev.data["origin"] == "input:player" and ev.data["field"] == "mu" and not in_kernel(ev.stack)]
         if oc2.undecided:
             inst("R7.6", "UNDECIDED", "mu is stored by the kernel only", "; ".join(oc2.undecided[:2]))
         elif stray:
@@ -207,31 +198,12 @@ def _job(idx: int) -> List[Dict[str, Any]]:
             inst("R7.6", "HOLDS", "mu is stored by the kernel only (also with limit_sigma in force)")
     except Exception as e:
         inst("R7.6", "UNDECIDED", "mu is stored by the kernel only", f"{type(e).__name__}: {e}")
-    # updated team's head / token
-    tgt = mu_writes[0].data["ptr"]
-    head_i = tgt.idx[0]
-    ti = _tokens(("in", "x", "y", (head_i,)))
-    if len(ti) != 1:
-        inst("R7.A", "UNDECIDED", "discovery", f"cannot identify the loop position of the updated team from {tgt}")
-        return out
-    ti = next(iter(ti))
-    kcmps = [c for c in p0.cmps if "_compute" in c["func"] or "_sum_q" in c["func"]]
-    kernel_pairs = {}
-    for c in p0.cmps:
-        if "_compute" not in c["func"]:
-            continue
-        a_has, b_has = ti in _tokens(c["a"]), ti in _tokens(c["b"])
-        if a_has == b_has:
-            continue
-        q_sym, i_sym = (c["b"], c["a"]) if a_has else (c["a"], c["b"])
-        kernel_pairs[(q_sym, i_sym)] = True
-    if not kernel_pairs:
-        inst("R7.A", "UNDECIDED", "discovery", "no comparison between the rank of the updated team and another team's rank found in the kernel")
-        return out
+    ti, head_i = info["ti"], info["head_i"]
+    kernel_pairs = {p_: True for p_ in info["pairs"]}
     # variance atom S(i): denominator of the member share (numerator = one summand of the fold in the denominator)
     S_i = None
     for sh in p0.shares:
-        if "_compute" not in sh["func"]:
+        if not in_kernel(sh["stack"]):
             continue
         folds: List = []
         _find_folds(sh["den"], folds)
@@ -356,34 +328,51 @@ def _has_logistic(sym, depth=0) -> bool:
 
 def _plackett_luce(prog, roles, p0: Probe, per_rel, omega_tags, ti, head_i, inst, I) -> None:
     """R7.7 normaliser set = summation set, R7.8 tie split, R7.9 same exponential."""
-    # --- the fill relation: comparison in the function that accumulates the exponentials (not the kernel itself)
-    fill = [c for c in p0.cmps if "_compute" not in c["func"] and not c["func"].endswith("<lambda>") and isinstance(c["op"], (ast.Lt, ast.LtE, ast.Gt, ast.GtE))]
-    use = [c for c in p0.cmps if "_compute" in c["func"] and isinstance(c["op"], (ast.Lt, ast.LtE, ast.Gt, ast.GtE))]
-    # exponential summands: accumulator increments outside the kernel whose rhs is exp(.)
-    summands = [i for i in p0.incs if "_compute" not in i["func"] and isinstance(i["rhs"], Num) and i["rhs"].sym is not None and i["rhs"].sym[0] == "call" and i["rhs"].sym[1] == "math.exp"]
-    if not fill or not use or not summands:
-        inst("R7.7", "UNDECIDED", "normaliser set = summation set", f"idiom not recognised (fill comparisons {len(fill)}, use comparisons {len(use)}, exponential summands {len(summands)})")
+    # exponential summands: kernel increments whose value is exp(.) of another team's data (not under the updated team's loop)
+    summands = [i for i in p0.incs if in_kernel(i["stack"]) and i["tag"] not in omega_tags and ti not in i["tokens"] and isinstance(i["rhs"], Num)
+                and i["rhs"].sym is not None and i["rhs"].sym[0] == "call" and i["rhs"].sym[1] == "math.exp"]
+    if not summands:
+        inst("R7.7", "UNDECIDED", "normaliser set = summation set", "no accumulation of exponentials into a normaliser found (idiom not recognised)")
         return
     ssym = summands[-1]["rhs"].sym
+    sfunc = summands[-1]["func"]
+    stag = summands[-1]["tag"]
     ts = _tokens(ssym)
     ts = next(iter(ts)) if len(ts) == 1 else None
     if ts is None:
         inst("R7.7", "UNDECIDED", "normaliser set = summation set", "cannot identify the contributing team of the summand")
         return
-    # fill: relation between rank(contributor s) and rank(normaliser q)
-    f = fill[-1]
-    s_left = ts in _tokens(f["a"])
-    rel_fill = rels_for(f["op"], True) if s_left else frozenset(FLIP.get(r, r) for r in rels_for(f["op"], True))
-    # use: relation between rank(team i) and rank(normaliser q)
-    u = use[-1]
-    i_left = ti in _tokens(u["a"])
-    rel_use = rels_for(u["op"], True) if i_left else frozenset(FLIP.get(r, r) for r in rels_for(u["op"], True))
-    rel_fill, rel_use = rel_fill - {"UN"}, rel_use - {"UN"}
-    ok = rel_fill == rel_use
+    fill_pairs = {}
+    for c in p0.cmps:
+        if c["func"] != sfunc:
+            continue
+        a_has, b_has = ts in _tokens(c["a"]), ts in _tokens(c["b"])
+        if a_has == b_has:
+            continue
+        q_sym, s_sym = (c["b"], c["a"]) if a_has else (c["a"], c["b"])
+        fill_pairs[(q_sym, s_sym)] = True
+    if not fill_pairs:
+        inst("R7.7", "UNDECIDED", "normaliser set = summation set", "no rank comparison guards the accumulation of the exponentials (idiom not recognised)")
+        return
+    # relation of the normaliser's team q to the other team, observed under each assumed relation:
+    #   use[r]  : team i consumes normaliser q when rank(q) r rank(i)      (kernel runs, fill left undecided)
+    #   fill[r] : team s contributes to normaliser q when rank(q) r rank(s) (runs with only the fill comparison assumed)
+    use = {r: any(i["tag"] in omega_tags and i["op"] in ("Add", "Sub") for i in per_rel[r]) for r in ("LT", "EQ", "GT")}
+    fill = {}
+    for r in ("LT", "EQ", "GT"):
+        pr = Probe(prog, [(q, s_, frozenset({r})) for (q, s_) in fill_pairs])
+        try:
+            _run(prog, roles, pr)
+        except Exception as e:
+            inst("R7.7", "UNDECIDED", "normaliser set = summation set", f"abstract evaluation failed: {type(e).__name__}: {e}")
+            return
+        fill[r] = any(i["tag"] == stag for i in pr.incs)
+    ok = use == fill
+    names = {"LT": "better placed than", "EQ": "tied with", "GT": "worse placed than"}
     inst("R7.7", "HOLDS" if ok else "VIOLATED", "normaliser set = summation set",
-         "" if ok else f"team s contributes its exponential to normaliser q when rank(s) is in {sorted(rel_fill)} of rank(q), but normaliser q is applied to team i when rank(i) is in {sorted(rel_use)} of rank(q): "
-                       "the softmax is normalised over a different set than it is summed over, so the probabilities of a stage do not sum to 1 and mu is not conserved",
-         {"fill": norm_text(f["node"], 60), "use": norm_text(u["node"], 60)})
+         "" if ok else "team s contributes its exponential to the normaliser of q when q is " + "/".join(names[r] for r in fill if fill[r]) + " s, but the normaliser of q is applied to team i when q is "
+                       + "/".join(names[r] for r in use if use[r]) + " i: the softmax is normalised over a different set than it is summed over, so the stage probabilities do not sum to 1 and mu is not conserved",
+         {"fill": {r: fill[r] for r in fill}, "use": {r: use[r] for r in use}})
     # --- R7.9 same exponential in numerator and summands
     num_syms = []
     for rel in per_rel:
@@ -408,8 +397,8 @@ def _plackett_luce(prog, roles, p0: Probe, per_rel, omega_tags, ti, head_i, inst
                 break
         if okall:
             inst("R7.9", "HOLDS", "numerator and summands use the same exponential", "", {"summand": show(want, 200)})
-    # --- R7.8 tie split: under the guard, the q == i increment minus the q != i increment equals 1/A for one A
-    for rel in ("LT", "EQ"):
+    # --- R7.8 tie split: where q applies to i, the own-stage increment minus the other-stage increment equals 1/A for one A
+    for rel in [r for r in ("LT", "EQ", "GT") if use[r]]:
         incs = {}
         for i in per_rel[rel]:
             if i["tag"] in omega_tags and i["op"] in ("Add", "Sub"):
@@ -419,7 +408,6 @@ def _plackett_luce(prog, roles, p0: Probe, per_rel, omega_tags, ti, head_i, inst
             inst("R7.8", "UNDECIDED", f"tie split (rank(q) {rel} rank(i))", f"expected two omega increments (own stage / other stage), found {len(vals)} with symbolic terms")
             continue
         d1, d2 = p_add(vals[0], vals[1], -1), p_add(vals[1], vals[0], -1)
-        # one of the two differences must be a single reciprocal 1/A with coefficient 1
         ok = any(len(d) == 1 and list(d.values())[0] == 1 and all(e == -1 for _, e in list(d.keys())[0]) and len(list(d.keys())[0]) == 1 for d in (d1, d2))
         inst("R7.8", "HOLDS" if ok else "VIOLATED", f"own-stage and other-stage terms share one tie divisor (rank(q) {rel} rank(i))",
              "" if ok else f"(own-stage increment) - (other-stage increment) is {show(d1, 200)}, not 1/A_q for a single tie count: the +(1-p) and -p parts of a stage are divided by different counts")
